@@ -521,7 +521,7 @@ class Response:
                 gmt_expires = expires.astimezone(timezone.utc)
                 self._cookies[name]['expires'] = gmt_expires.strftime(fmt)
 
-        if max_age:
+        if max_age is not None:
             # RFC 6265 section 5.2.2 says about the max-age value:
             #   "If the remainder of attribute-value contains a non-DIGIT
             #    character, ignore the cookie-av."
